@@ -152,10 +152,16 @@ static void check_against_statx(const uv_stat_t* u, int dirfd, const char* path,
   if (x.stx_mask & STATX_BTIME) n_btime++;
 }
 
-static const char* rel(const char* p) {   /* strip the scratch root */
-  size_t n = strlen(root);
-  if (!strncmp(p, root, n)) return p[n] == '/' ? p + n + 1 : (p[n] == 0 ? "." : p);
-  return p;
+/* canonical form of a path-valued output: the run's root and its private parent directory (symlink targets
+   such as ../x legitimately resolve into it) are replaced by fixed tokens, so logs of different runs compare */
+static char parent_dir[PATH_MAX];
+static const char* rel(const char* p) {
+  static char out[PATH_MAX + 16];
+  size_t n = strlen(root), m = strlen(parent_dir);
+  if (!strncmp(p, root, n) && (p[n] == '/' || p[n] == 0)) snprintf(out, sizeof out, "<ROOT>%s", p + n);
+  else if (m > 0 && !strncmp(p, parent_dir, m) && (p[m] == '/' || p[m] == 0)) snprintf(out, sizeof out, "<PARENT>%s", p + m);
+  else snprintf(out, sizeof out, "%s", p);
+  return out;
 }
 
 static int cmpstr(const void* a, const void* b) { return strcmp(*(char* const*) a, *(char* const*) b); }
@@ -226,6 +232,7 @@ int main(int argc, char** argv) {
   mode = !strcmp(argv[1], "sync") ? SYNC : !strcmp(argv[1], "pool") ? POOL : !strcmp(argv[1], "uring") ? URING : POSIX;
   if (chdir(argv[2]) || !getcwd(root, sizeof root)) { perror("chdir"); return 2; }
   { char* rp = realpath(".", NULL); if (rp) { strcpy(root, rp); free(rp); } }
+  { char* sl; strcpy(parent_dir, root); sl = strrchr(parent_dir, '/'); if (sl && sl != parent_dir) *sl = 0; else parent_dir[0] = 0; }
   umask(0);
   for (i = 0; i < 16; i++) slots[i] = -1;
   loop = &loop_s;
@@ -410,7 +417,7 @@ int main(int argc, char** argv) {
         uv_fs_req_cleanup(&req);
       }
       printf("%s %s", w[0], rs(r));
-      if (r == 0) printf(" -> %s", w[0][3] == 'd' ? out : rel(out));
+      if (r == 0) printf(" -> %s", rel(out));
       putchar('\n');
     } else if (IS("utime", 4) || IS("lutime", 4) || IS("futime", 4)) {
       double at = atof(A(2)), mt = atof(A(3));
